@@ -938,9 +938,10 @@ func (s *SystemAnalysisServiceImpl) findPathsFromModule(graph *analyzer.Dependen
 
 func (s *SystemAnalysisServiceImpl) calculateMaxDepth(graph *analyzer.DependencyGraph) int {
 	maxDepth := 0
+	heights := acyclicChainHeights(graph)
 
 	for moduleName := range graph.Nodes {
-		depth := s.calculateDepthFromModule(graph, moduleName, make(map[string]bool), 0)
+		depth := s.calculateDepthFromModule(graph, moduleName, make(map[string]bool), 0, heights)
 		if depth > maxDepth {
 			maxDepth = depth
 		}
@@ -949,9 +950,54 @@ func (s *SystemAnalysisServiceImpl) calculateMaxDepth(graph *analyzer.Dependency
 	return maxDepth
 }
 
-func (s *SystemAnalysisServiceImpl) calculateDepthFromModule(graph *analyzer.DependencyGraph, current string, visited map[string]bool, currentDepth int) int {
+// acyclicChainHeights returns the length of the longest import chain below every module
+// from which no import cycle can be reached. The modules are settled from the sink side
+// (a module once all its dependencies are), each module and each import is looked at once.
+func acyclicChainHeights(graph *analyzer.DependencyGraph) map[string]int {
+	const inProgress, reachesCycle = -1, -2
+	heights := make(map[string]int, len(graph.Nodes))
+
+	var visit func(name string) int
+	visit = func(name string) int {
+		if known, seen := heights[name]; seen {
+			return known
+		}
+		heights[name] = inProgress
+		height := 0
+		if node := graph.Nodes[name]; node != nil {
+			for dep := range node.Dependencies {
+				below := visit(dep)
+				if below < 0 || height < 0 {
+					height = reachesCycle
+				} else if below+1 > height {
+					height = below + 1
+				}
+			}
+		}
+		heights[name] = height
+		return height
+	}
+	for name := range graph.Nodes {
+		visit(name)
+	}
+
+	for name, height := range heights {
+		if height < 0 {
+			delete(heights, name)
+		}
+	}
+	return heights
+}
+
+func (s *SystemAnalysisServiceImpl) calculateDepthFromModule(graph *analyzer.DependencyGraph, current string, visited map[string]bool, currentDepth int, heights map[string]int) int {
 	if visited[current] {
 		return currentDepth
+	}
+
+	// No module below this one is on the current path (the module would be part of an
+	// import cycle): the chains below it need not be walked one by one
+	if height, ok := heights[current]; ok {
+		return currentDepth + height
 	}
 
 	visited[current] = true
@@ -962,7 +1008,7 @@ func (s *SystemAnalysisServiceImpl) calculateDepthFromModule(graph *analyzer.Dep
 
 	if node != nil {
 		for dep := range node.Dependencies {
-			depth := s.calculateDepthFromModule(graph, dep, visited, currentDepth+1)
+			depth := s.calculateDepthFromModule(graph, dep, visited, currentDepth+1, heights)
 			if depth > maxSubDepth {
 				maxSubDepth = depth
 			}
